@@ -23,6 +23,8 @@ QUICK = [
     ("multi_tick_vs_remove", True, False, [["tick"], ["mp_remove"]]),
     ("multi_remove_vs_finish_ticker", True, True, [["finish"], ["mp_remove"]]),
     ("multi_remove_println_mpprintln", True, False, [["mp_remove"], ["println"], ["mp_println"]]),
+    ("multi_insert_after_vs_tick", True, False, [["mp_insert_after"], ["tick"]]),
+    ("multi_insert_after_vs_finish_ticker", True, True, [["finish"], ["mp_insert_after"]]),
 ]
 CALLS = ["tick", "update", "finish", "println", "disable", "enable"]
 
@@ -33,8 +35,8 @@ def programs(tier):
     out = list(QUICK)
     for multi in (False, True):
         for tk in (False, True):
-            for a in CALLS + (["mp_println", "mp_remove"] if multi else []):
-                for b in CALLS + (["mp_println", "mp_remove"] if multi else []):
+            for a in CALLS + (["mp_println", "mp_remove", "mp_insert_after"] if multi else []):
+                for b in CALLS + (["mp_println", "mp_remove", "mp_insert_after"] if multi else []):
                     out.append(("p2_%s_%s_%d%d" % (a, b, multi, tk), multi, tk, [[a], [b]]))
     for a in CALLS:
         for b in CALLS:
